@@ -115,7 +115,14 @@ extern "C" void harness()
 			const uint32_t a0 = a;      // heterogeneous dispatch forwards lvalues: filters may rewrite the caller's own variable
 			g_trn = 0;
 #if TK == 1
-			if(vf_choose(2)) { g->t->enqueue(EV, a, b); vf_assert(g_trn == 0, 261); g->t->process(); vf_cover(COV_QUEUED); } else g->t->dispatch(EV, a, b);
+			switch(vf_choose(4)) {
+			case 0: g->t->dispatch(EV, a, b); break;
+			case 1: g->t->enqueue(EV, a, b); vf_assert(g_trn == 0, 261); g->t->process(); vf_cover(COV_QUEUED); break;
+			case 2: g->t->enqueue(EV, a, b); vf_assert(g_trn == 0, 261); g->t->processOne(); vf_cover(COV_QUEUED); break;
+			default: {                                     // taken out of the queue and dispatched by hand: a dispatch like any other
+				g->t->enqueue(EV, a, b); T::QueuedEvent qe; bool got = g->t->takeEvent(&qe); vf_assert(got && g_trn == 0, 261);
+				g->t->dispatch(qe); vf_cover(COV_QUEUED); break; }
+			}
 #else
 			g->t->dispatch(EV, a, b);
 #endif
